@@ -123,8 +123,16 @@ def run(ctx, rep):
                 if isinstance(n, ast.For) and any(x is anchor for x in ast.walk(n)):
                     it = unparse(n.iter)
                     names = [x.id for x in ast.walk(n.iter) if isinstance(x, ast.Name)]
-                    defs = [d for d in own_nodes(frag.node) if isinstance(d, ast.Assign) and isinstance(d.targets[0], ast.Name)
-                            and d.targets[0].id in names and "get_out_dirbonds" in unparse(d.value)]
+                    def from_out_bonds(nm, depth=0):
+                        """the name is bound to the atom's out-bonds, or to a selection / re-ordering of a name that is"""
+                        for d in own_nodes(frag.node):
+                            if isinstance(d, ast.Assign) and len(d.targets) == 1 and isinstance(d.targets[0], ast.Name) and d.targets[0].id == nm:
+                                if "get_out_dirbonds" in unparse(d.value):
+                                    return True
+                                if depth < 3 and any(isinstance(x, ast.Name) and x.id != nm and from_out_bonds(x.id, depth + 1) for x in ast.walk(d.value)):
+                                    return True
+                        return False
+                    defs = [nm_ for nm_ in names if from_out_bonds(nm_)]
                     if "get_out_dirbonds" in it or defs:
                         loop_ok = True
             rep.ob("R1", loop_ok, node, frag, construct="ring symbol position", how="emitted while visiting the closing atom's own out-bonds",
